@@ -131,6 +131,19 @@ class Gen:
             return '((x->v[%d] %s %d) * %d)' % (a, op, k, 2 + a + k)
         return '(x->v[%d] %s %d)' % (a, op, k)
 
+    SIMPLE = ('E', 'A', 'YIELD', 'WAIT', 'WAIT_UNTIL', 'EXIT', 'EXIT_ON', 'FAIL', 'FAIL_ON', 'SPAWN', 'SPAWN_CHECK', 'CALL')
+
+    def bare(self, block):
+        """render this body without braces?  deterministic in the body's content (render_c is called twice)"""
+        if len(block) != 1 or block[0][0] not in self.SIMPLE:
+            return False
+        if sum(hash_stmt(block[0])) % 3 == 0:
+            return False
+        self.flags.add('bare_body')
+        if block[0][0] in ('SPAWN', 'SPAWN_CHECK', 'CALL'):
+            self.flags.add('bare_spawn')
+        return True
+
     def render_block(self, block, ind, lines, loopbase):
         t = '\t' * ind
         for s in block:
@@ -150,17 +163,28 @@ class Gen:
                 else:
                     lines.append('%sPT_WAIT_UNTIL(poll(x, %d, %d));' % (t, s[1], s[2]))
             elif k == 'IF':
-                lines.append('%sif %s {' % (t, self.c_cond(s[1])))
+                # a body that is one simple statement is written without braces two times out of three
+                # (every PT_ macro must then behave as one statement)
+                # (never the first branch of an if/else: a macro that wrongly expands to two statements would
+                # then fail to compile here although it compiles wherever the library's users wrote it differently)
+                tb = s[3] is None and self.bare(s[2])
+                eb = s[3] is not None and self.bare(s[3])
+                lines.append('%sif %s%s' % (t, self.c_cond(s[1]), '' if tb else ' {'))
                 self.render_block(s[2], ind + 1, lines, loopbase)
                 if s[3] is not None:
-                    lines.append('%s} else {' % t)
+                    lines.append('%s%selse%s' % (t, '' if tb else '} ', '' if eb else ' {'))
                     self.render_block(s[3], ind + 1, lines, loopbase)
-                lines.append('%s}' % t)
+                    if not eb:
+                        lines.append('%s}' % t)
+                elif not tb:
+                    lines.append('%s}' % t)
             elif k == 'FOR':
                 cv = 'x->c[%d]' % loopbase
-                lines.append('%sfor (%s = 0; %s < %d; %s++) {' % (t, cv, cv, s[2], cv))
+                fb = self.bare(s[3])
+                lines.append('%sfor (%s = 0; %s < %d; %s++)%s' % (t, cv, cv, s[2], cv, '' if fb else ' {'))
                 self.render_block(s[3], ind + 1, lines, loopbase + 1)
-                lines.append('%s}' % t)
+                if not fb:
+                    lines.append('%s}' % t)
             elif k == 'EXIT':
                 lines.append('%sPT_EXIT();' % t)
             elif k == 'EXIT_ON':
@@ -298,6 +322,17 @@ class Gen:
         return ';'.join(log)
 
 
+def hash_stmt(st):
+    """small integers out of a statement tuple (ints and operator strings), for deterministic choices"""
+    for x in st:
+        if isinstance(x, int):
+            yield x
+        elif isinstance(x, str):
+            yield sum(map(ord, x))
+        elif isinstance(x, tuple):
+            yield from hash_stmt(x)
+
+
 def count_children(funcs):
     return max([f[2] for f in funcs] + [0])
 
@@ -330,7 +365,8 @@ def generate_file(path, seed, first_id, count, tag):
             if len(src) > 3000:
                 src = src[:3000] + '...'
             flags = (1 if 'block_in_loop_in_cond' in g.flags else 0) | (2 if 'spawn_in_loop' in g.flags else 0) | \
-                    (4 if 'failing_child' in g.flags else 0)
+                    (4 if 'failing_child' in g.flags else 0) | (8 if 'bare_body' in g.flags else 0) | \
+                    (16 if 'bare_spawn' in g.flags else 0)
             f.write('\t{ %d, p%d_f0, %d, {%s}, "%s",\n\t  "%s" },\n' % (pid_, pid_, flags, ','.join(map(str, g.init)), exp, src))
         f.write('};\nconst unsigned pt_programs_%s_len = %d;\n' % (tag, len(progs)))
     return len(progs)
